@@ -28,6 +28,7 @@ CONSTANTS
   Weak_EvictWithoutBytes = FALSE
   Weak_CacheNotUpdatedOnCommit = FALSE
   Weak_RecheckKeepsRejected = FALSE
+  Weak_NonAtomicAdmission = FALSE
 INIT Init
 NEXT Next
 CONSTRAINT DepthOK
